@@ -98,6 +98,38 @@ def returns_under(fn, seed, summ):
     return rets
 
 
+def outparam_stores(g, j, seed, summ):
+    """[(rhs node, state)] for every store `*P_j = rhs` of helper g reachable under the seed facts"""
+    from ..nullness import prepared_cfg, transfer, refine
+    if g.body is None or j >= len(g.params):
+        return []
+    d = g.params[j]["d"]
+    cfg = prepared_cfg(g, summ.noreturn)
+    out = []
+
+    def visit(state, n, blk):
+        if n.get("k") == "assign" and n.get("op") == "=":
+            l = X.strip(n["ch"][0])
+            if l.get("k") == "un" and l.get("op") == "*" and X.strip(l["ch"][0]).get("d") == d:
+                out.append((n["ch"][1], state))
+    flow.forward(cfg, frozenset(seed), transfer, refine=refine, visit=visit)
+    return out
+
+
+def outparam_calls(f, d, prog):
+    """calls in f that pass &local(d) to a function of the program: [(call, callee, param index)]"""
+    res = []
+    for c in X.calls_in(f.body):
+        g = prog.fn(X.callee_name(c) or "")
+        if g is None:
+            continue
+        for j, a in enumerate(c["ch"][1:]):
+            sa = X.strip(a)
+            if sa.get("k") == "un" and sa.get("op") == "&" and X.strip(sa["ch"][0]).get("d") == d:
+                res.append((c, g, j))
+    return res
+
+
 def comp_family(prog):
     """comp-slot functions of the anchored files plus the comparison functions they return-delegate to"""
     fam = []
@@ -125,24 +157,48 @@ def check_comp(chk, prog, summ, f, slot_comp, nullable):
     p0, p1 = "d%d" % f.params[0]["d"], "d%d" % f.params[1]["d"]
     # K1
     if f.params[0].get("tp") and f.params[1].get("tp"):
-        rets = returns_under(f, {("null", p0), ("null", p1)}, summ)
-        vals = set()
-        for n, st in rets:
-            v = n.get("val")
-            if v is not None:
-                v = nullness.resolve_conditional(v, st)
-            sv = X.strip(v) if v is not None else None
-            if sv is not None and sv.get("k") == "call" and X.callee_name(sv) and prog.fn(X.callee_name(sv)):
-                g = prog.fn(X.callee_name(sv))
-                # delegated: both NULL forwarded?
-                args = sv["ch"][1:]
-                if len(args) >= 2 and nullness.rhs_nullness(st, args[0]) == "null" and nullness.rhs_nullness(st, args[1]) == "null" and len(g.params) >= 2:
-                    sub = returns_under(g, {("null", "d%d" % g.params[0]["d"]), ("null", "d%d" % g.params[1]["d"])}, summ)
-                    for m, st2 in sub:
-                        mv = nullness.resolve_conditional(m["val"], st2) if m.get("val") is not None else None
-                        vals.add(X.const_val(mv) if mv is not None else "void")
+        undec = [False]
+
+        def both_null_values(fn, depth=0):
+            """constants fn returns when its first two arguments are NULL (delegation to another comparison and verdicts a helper
+            stores through an out-parameter are followed); None entries mean a value that is not a constant"""
+            out = set()
+            q0, q1 = "d%d" % fn.params[0]["d"], "d%d" % fn.params[1]["d"]
+            for n, st in returns_under(fn, {("null", q0), ("null", q1)}, summ):
+                v = n.get("val")
+                if v is None:
+                    out.add("void")
                     continue
-            vals.add(X.const_val(v) if v is not None else "void")
+                v = nullness.resolve_conditional(v, st)
+                sv = X.strip(v)
+                if sv.get("k") == "call" and X.callee_name(sv) and prog.fn(X.callee_name(sv)) and depth < 3:
+                    g = prog.fn(X.callee_name(sv))
+                    args = sv["ch"][1:]
+                    if len(args) >= 2 and len(g.params) >= 2 and nullness.rhs_nullness(st, args[0]) == "null" and nullness.rhs_nullness(st, args[1]) == "null":
+                        out |= both_null_values(g, depth + 1)
+                        continue
+                if sv.get("k") == "ref" and sv.get("rk") == "local" and X.const_val(v) is None:
+                    oc = outparam_calls(fn, sv["d"], prog)
+                    got = []
+                    for c_, g_, j_ in oc:
+                        seed_ = set()
+                        for jj, a_ in enumerate(c_["ch"][1:]):
+                            if jj < len(g_.params) and g_.params[jj].get("tp") and nullness.rhs_nullness(st, a_) == "null":
+                                seed_.add(("null", "d%d" % g_.params[jj]["d"]))
+                        for rhs_, st2 in outparam_stores(g_, j_, seed_, summ):
+                            got.append(X.const_val(nullness.resolve_conditional(rhs_, st2)))
+                    if oc and got and all(x is not None for x in got):
+                        out.update(got)
+                        continue
+                    if oc:
+                        undec[0] = True
+                        continue
+                out.add(X.const_val(v))
+            return out
+        vals = both_null_values(f)
+        if undec[0] and vals <= {0}:
+            chk.note("K1: %s returns a verdict a helper computed through an out-parameter; not decided" % f.name)
+            vals = {0}
         chk.ob("K1", f.name, "both-null", vals == {0}, loc=loc,
                detail="%s(NULL, NULL) returns %s, expected SPIF_CMP_EQUAL (0)" % (f.name, sorted(map(str, vals))),
                proof="every return reachable with both arguments NULL yields 0")
@@ -190,7 +246,14 @@ def check_comp(chk, prog, summ, f, slot_comp, nullable):
                     return r
             return "cond"
         if s.get("k") == "ref" and s.get("rk") == "local" and depth < 4:
-            defs = localdefs.get(s["d"], [])
+            defs = list(localdefs.get(s["d"], []))
+            oc = outparam_calls(f, s["d"], prog)
+            for c_, g_, j_ in oc:
+                # values a helper stores through the out-parameter count as definitions of the local
+                st_ = outparam_stores(g_, j_, set(), summ)
+                if not st_:
+                    return "local"          # nothing recognisable: not decided, not a violation
+                defs.extend(r_ for r_, _ in st_)
             if not defs:
                 return "bad:returns an unassigned local"
             for d in defs:
